@@ -1,12 +1,13 @@
 """C05 -- containment links and the navigation API are consistent.
 
 (M)    spec/Nav.tla: TLC builds every object tree over the carrier meta-model MM5
-       (recursive containment; single/list, concrete/abstract containment
-       attributes; single/list back references) up to a bound and checks the
+       (recursive containment; single/list, concrete/abstract/OBJECT-typed
+       containment attributes; single/list back references; class names that
+       are prefixes and suffixes of one another) up to a bound and checks the
        design theorems in every state (MC_Nav.tla).
 (S->I) every enumerated tree is rendered in the carrier grammar generated from
        the same meta-model data, loaded with real textX (generic classes and
-       user classes), and `parent`, get_model, get_children,
+       container-like user classes whose instances can be falsy), and `parent`, get_model, get_children,
        get_children_of_type, get_parent_of_type are compared with the answers
        TLC computes from Nav.tla (NavOracle.tla); objects are identified by
        their containment path.
